@@ -213,6 +213,13 @@ def rule_remove_then_complete(ctx):
     bad = [n for n in prog if (n.kind == "stmt" and isinstance(n.ast, ast.Delete)) or any(call_name(c) in ("txaio.resolve", "txaio.reject") for c in node_calls(n)) or
            (n.kind == "stmt" and isinstance(n.ast, ast.Assign) and ".pop(" in norm.text(n.ast.value))]
     ctx.ob("RESULT progress: neither removes the call record nor completes the call", not bad, f"{[stmt_key(n.ast)[:40] for n in bad]}", om.fn.loc())
+    final = [n for n in nodes if (n.kind == "stmt" and isinstance(n.ast, ast.Delete) and "_call_reqs" in norm.text(n.ast.targets[0])) or
+             any(call_name(c) in ("txaio.resolve", "txaio.reject") for c in node_calls(n))]
+    ctx.require(len(final) >= 3, "RESULT final path not found")
+    for n in final:
+        ctx.ob(f"RESULT: `{stmt_key(n.ast)[:50]}` only for a non-progressive RESULT", ("truth", "msg.progress", None, False) in (mf.at(n) or ()),
+               "a RESULT flagged progress can remove the call record / complete the call (e.g. when the call has no on_progress handler): "
+               "the call ends with a partial result and its real final RESULT becomes a protocol violation", om.fn.loc(n.ast))
     cb = [(n, c) for n in prog for c in node_calls(n) if call_name(c) == "txaio.as_future" and c.args and norm.text(c.args[0]) == "call_request.options.on_progress"]
     ctx.ob("RESULT progress: delivered to the on_progress handler of the call with this request id", len(cb) == 2 and
            any(norm.text(s.ast.value) == "self._call_reqs[msg.request]" for s in nodes if s.kind == "stmt" and isinstance(s.ast, ast.Assign) and norm.text(s.ast.targets[0]) == "call_request"),
@@ -275,6 +282,14 @@ def rule_options(ctx):
                 gat = {mnt[5:] for f in mf.at(n) for mnt in norm.mentions(f) if mnt.startswith("self.")}
                 if attrs:
                     ctx.ob(f"{oc}: option '{k}' guarded by the field it emits", bool(set(attrs) & gat), f"value from self.{attrs} under guard on {sorted(gat)}", fn.loc(n.ast))
+                    init = c.methods.get("__init__")
+                    for at in attrs:
+                        if ("truth", f"self.{at}", None, True) in mf.at(n) and init is not None:
+                            from .c03 import falsy_admissible
+                            adm, t = falsy_admissible(ctx, init, at)
+                            ctx.ob(f"{oc}: option '{k}' guard keeps an explicitly given falsy value", not adm,
+                                   f"`if self.{at}:` drops the admissible value {'False' if t == 'bool' else '0' if t == 'int' else 'empty ' + str(t)}: "
+                                   f"{oc}({at}=<falsy>) is sent without '{k}', so the router applies its default instead of the caller's choice", fn.loc(n.ast))
                     if k != "receive_progress":
                         ctx.ob(f"{oc}: option '{k}' emitted from the attribute of the same name", k in attrs, f"'{k}' written from self.{attrs}", fn.loc(n.ast))
         ctx.ob(f"{oc}: emits options", n_keys >= 3, f"{n_keys} keys", fn.loc())
